@@ -156,6 +156,38 @@ def _csub(ex, c):
     return some(BV(a.t - b.t, a.signed))
 
 
+@summary("core::num::checked_shr", "core::num::checked_shl")
+def _cshift(ex, c):
+    a, n = c.args
+    w = a.width
+    if ex.branch(z3.UGE(n.t, w)):
+        return NONE()
+    amt = z3.ZeroExt(w - n.width, n.t) if w > n.width else z3.Extract(w - 1, 0, n.t)
+    if c.name.endswith("shl"):
+        return some(BV(a.t << amt, a.signed))
+    return some(BV(a.t >> amt if a.signed else z3.LShR(a.t, amt), a.signed))
+
+
+@summary("core::num::checked_add")
+def _cadd(ex, c):
+    a, b = c.args
+    if a.signed:
+        raise Unsupported("signed checked_add")
+    if ex.branch(z3.Not(z3.BVAddNoOverflow(a.t, b.t, False))):
+        return NONE()
+    return some(BV(a.t + b.t, False))
+
+
+@summary("core::num::checked_mul")
+def _cmul(ex, c):
+    a, b = c.args
+    if a.signed:
+        raise Unsupported("signed checked_mul")
+    if ex.branch(z3.Not(z3.BVMulNoOverflow(a.t, b.t, False))):
+        return NONE()
+    return some(BV(a.t * b.t, False))
+
+
 def int_conv(ex, c):
     v = c.args[0]
     mi = re.search(r"as (?:\w+::)*Into<([\w:]+)>", c.path)
@@ -435,15 +467,41 @@ def _calc_hash(ex, c):
 
 
 # ------------------------------------------------------------------ iterators (eager lists)
+def _lazy_range(it):
+    """a Range whose bounds are symbolic is kept as a lazy pipeline: (lo, hi, stages); its elements are never enumerated -
+    a property decides membership through the generator (props_addrset)"""
+    if isinstance(it, Adt) and base_type_name(it.ty or "").startswith("Range") and len(it.fields) == 2:
+        lo, hi = it.fields
+        if not (z3.is_bv_value(z3.simplify(lo.t)) and z3.is_bv_value(z3.simplify(hi.t))):
+            return Opaque("LazyIter", lo=lo, hi=hi, stages=[])
+    return None
+
+
 @summary("<* as Iterator>::map")
 def _it_map(ex, c):
     it, f = c.args
+    lz = _lazy_range(it)
+    if lz is not None:
+        it = lz
+    if isinstance(it, Opaque) and it.kind == "LazyIter":
+        return Opaque("LazyIter", lo=it.lo, hi=it.hi, stages=it.stages + [("map", f)])
+    if isinstance(it, Adt):
+        it = _range_items(ex, it)
     return Opaque("Iter", items=[ex.call_callable(f, [x]) for x in it.items])
+
+
+def _range_items(ex, rng):
+    lo, hi = (z3.simplify(x.t) for x in rng.fields[:2])
+    if not (z3.is_bv_value(lo) and z3.is_bv_value(hi)) or hi.as_long() - lo.as_long() > 64:
+        raise Unsupported("eager iteration over a long or symbolic range")
+    return Opaque("Iter", items=[BV(z3.BitVecVal(i, lo.size()), rng.fields[0].signed) for i in range(lo.as_long(), hi.as_long())])
 
 
 @summary("<* as Iterator>::filter")
 def _it_filter(ex, c):
     it, f = c.args
+    if isinstance(it, Opaque) and it.kind == "LazyIter":
+        return Opaque("LazyIter", lo=it.lo, hi=it.hi, stages=it.stages + [("filter", f)])
     out = []
     for x in it.items:
         r = ex.call_callable(f, [Ref(Cell(x))])
@@ -464,6 +522,12 @@ def deref1(ex, v):
 @summary("<* as Iterator>::collect")
 def _it_collect(ex, c):
     ty = c.generics[0] if c.generics else ""
+    if isinstance(c.args[0], Opaque) and c.args[0].kind == "LazyIter":
+        if not base_type_name(ty).startswith("HashSet"):
+            raise Unsupported(f"collect::<{ty}> of a lazy range pipeline")
+        return Opaque("HashSet", items=[], lazy=c.args[0])
+    if base_type_name(ty).startswith("HashSet") and "Ipv4Addr" in ty:
+        return Opaque("HashSet", items=[Cell(x) for x in c.args[0].items])
     if base_type_name(ty).startswith("HashSet"):
         return KSet(key_of(ex, x) for x in c.args[0].items)
     if not base_type_name(ty).startswith("Vec"):
@@ -1359,3 +1423,108 @@ class KSet(Opaque):
 @summary("<DhcpOption as From>::from")
 def _dhcpopt_from(ex, c):
     return Adt("DhcpOption", None, [c.args[0]])
+
+
+# ------------------------------------------------------------------ address-set algebra (HashSet<Ipv4Addr>), Mutex<RefCell<..>>
+@summary("<HashSet as Sub>::sub")
+def _hs_sub(ex, c):
+    return Opaque("HashSet", items=[], diff=(c.args[0], c.args[1]))
+
+
+@summary("HashSet::new", "<HashSet as Default>::default")
+def _hs_new(ex, c):
+    return Opaque("HashSet", items=[])
+
+
+@summary("<HashSet as Extend>::extend", "HashSet::extend")
+def _hs_extend(ex, c):
+    ref, src = c.args
+    hs = deref(ex, ref)
+    if isinstance(src, Opaque) and src.kind == "Iter":
+        new = [Cell(deref1(ex, x)) for x in src.items]
+    else:
+        s2 = deref(ex, src)
+        if getattr(s2, "lazy", None) is not None or getattr(s2, "diff", None) is not None or getattr(s2, "pred", None) is not None:
+            raise Unsupported("extend with a non-explicit set")
+        new = [Cell(cell.v) for cell in s2.items]
+    if not isinstance(hs, Opaque) or hs.kind != "HashSet" or getattr(hs, "lazy", None) is not None:
+        raise Unsupported("extend of a non-explicit set")
+    hs.items = list(hs.items) + new
+    return UNIT
+
+
+@summary("<HashSet as Clone>::clone")
+def _hs_clone(ex, c):
+    hs = deref(ex, c.args[0])
+    if getattr(hs, "lazy", None) is not None or getattr(hs, "diff", None) is not None:
+        return hs
+    o = Opaque("HashSet", items=[Cell(cell.v) for cell in hs.items])
+    for k in ("pred", "pool_id"):
+        if hasattr(hs, k):
+            setattr(o, k, getattr(hs, k))
+    return o
+
+
+@summary("<HashSet as IntoIterator>::into_iter")
+def _hs_into_iter(ex, c):
+    hs = deref(ex, c.args[0])
+    if getattr(hs, "lazy", None) is not None or getattr(hs, "diff", None) is not None or getattr(hs, "pred", None) is not None:
+        raise Unsupported("iteration over a non-explicit set")
+    return Opaque("Iter", items=[cell.v for cell in hs.items])
+
+
+@summary("Mutex::lock")
+def _mutex_lock(ex, c):
+    m = deref(ex, c.args[0])
+    if not hasattr(m, "inner"):
+        raise Unsupported("Mutex without modelled content")
+    return Adt("Result", "Ok", [Ref(m.inner, mut=True)])
+
+
+@summary("<MutexGuard as Deref>::deref", "<MutexGuard as DerefMut>::deref_mut", "<std::cell::Ref as Deref>::deref", "<Ref as Deref>::deref")
+def _guard_deref(ex, c):
+    g = c.args[0]
+    v = ex.load(g)
+    return v if isinstance(v, Ref) else g
+
+
+@summary("RefCell::borrow")
+def _refcell_borrow(ex, c):
+    r = deref(ex, c.args[0])
+    if not hasattr(r, "inner"):
+        raise Unsupported("RefCell without modelled content")
+    return Ref(r.inner)
+
+
+@summary("RefCell::replace")
+def _refcell_replace(ex, c):
+    r = deref(ex, c.args[0])
+    old = r.inner.v
+    r.inner.v = c.args[1]
+    return old
+
+
+@summary("<bool as Default>::default")
+def _bool_default(ex, c):
+    return Bool(False)
+
+
+@summary("<Vec as Default>::default")
+def _vec_default(ex, c):
+    return Seq([])
+
+
+@summary("<Mutex as Default>::default")
+def _mutex_default(ex, c):
+    # Mutex<RefCell<Option<_>>> (dhcp::config::Policy::address_cache): empty cache
+    return Opaque("Mutex", inner=Cell(Opaque("RefCell", inner=Cell(NONE()))))
+
+
+@summary("<* as Iterator>::fold")
+def _it_fold(ex, c):
+    it, acc, f = c.args
+    if not (isinstance(it, Opaque) and it.kind == "Iter"):
+        raise Unsupported("fold over a non-list iterator")
+    for x in it.items:
+        acc = ex.call_callable(f, [acc, x])
+    return acc
